@@ -17,7 +17,7 @@ from mc.drivers import stores as S
 from mc.lattice import Emb, chunked
 
 CATS = (("A",), ("A", "B"), ("C",), ("C", "D"))
-REGEXES = ("foo", "FOO", "o", "^x", "", "é")
+REGEXES = ("foo", "FOO", "o", "^x", "", "é", ".*", "^$", " ")  # '.*' and '^$' match the empty string; ' ' is whitespace only
 SELECTS = (None, (), ("title",), ("missing",), ("num",), ("missing", "title"))
 EVENT_DATA = (
     {"title": "foo bar", "app": "Editor"},
@@ -30,7 +30,7 @@ EVENT_DATA = (
     {"title": "Xfoo", "$category": ["old"], "$tags": ["old"], "É": "É"},
 )
 BOUNDS = {
-    "quick": {"rule_alphabet": "4 categories x 6 regexes x 2 ignore_case x 6 select_keys = 288 rules", "rule_lists": "all ordered lists of <=2 rules (83k) + all ordered lists of 3 rules over 24 rules (13.8k)", "events": "8 event shapes in one list", "urls": "2x3x2x2x2x2 components", "titles": "prefix x marker x fps x app-present product"},
+    "quick": {"rule_alphabet": "4 categories x 9 regexes x 2 ignore_case x 6 select_keys = 432 rules", "rule_lists": "all ordered lists of <=2 rules (187k) + all ordered lists of 3 rules over 24 rules (13.8k)", "events": "8 event shapes in one list", "urls": "2x3x2x2x2x2 components", "titles": "prefix x marker x fps x app-present product"},
     "thorough": {"rule_lists": "additionally all ordered lists of 3 rules over 72 rules (373k)", "rest": "as quick"},
 }
 RULE = (
@@ -54,6 +54,12 @@ def ref_match(rule, data):
         if not isinstance(v, str):
             continue
         hay, needle = (v.lower(), regex.lower()) if ic else (v, regex)
+        if needle == ".*":
+            return True  # matches every string value, also the empty one -- but never a MISSING value
+        if needle == "^$":
+            if hay == "":
+                return True
+            continue
         if needle.startswith("^"):
             if hay.startswith(needle[1:]):
                 return True
@@ -280,16 +286,16 @@ def _cfg(ctx):
     full = tuple((c, r, ic, s) for c in CATS for r in REGEXES for ic in (False, True) for s in SELECTS)
     small = tuple((c, r, ic, None) for c in CATS for r in ("foo", "o", "") for ic in (False, True))
     mid = tuple((c, r, ic, s) for c in CATS for r in ("foo", "o", "^x") for ic in (False, True) for s in (None, ("title",), ("missing", "title")))
-    _G["alphas"] = {"full288": full, "small24": small, "mid72": mid}
+    _G["alphas"] = {"full432": full, "small24": small, "mid72": mid}
 
 
 def run(ctx):
     _cfg(ctx)
-    units = [("u", None), ("t", None), ("r", ((_G["alphas"]["full288"][0],), "full288", 0))]
-    for ch in chunked(_G["alphas"]["full288"], 8):
-        units.append(("r", (tuple(ch), "full288", 1)))
-    for ch in chunked(_G["alphas"]["full288"], ctx.workers * 6):
-        units.append(("r", (tuple(ch), "full288", 2)))
+    units = [("u", None), ("t", None), ("r", ((_G["alphas"]["full432"][0],), "full432", 0))]
+    for ch in chunked(_G["alphas"]["full432"], 8):
+        units.append(("r", (tuple(ch), "full432", 1)))
+    for ch in chunked(_G["alphas"]["full432"], ctx.workers * 6):
+        units.append(("r", (tuple(ch), "full432", 2)))
     for ch in chunked(_G["alphas"]["small24"], 24):
         units.append(("r", (tuple(ch), "small24", 3)))
     if ctx.thorough:
